@@ -361,3 +361,23 @@ Theorem C19_ksget_model_meets_spec : forall token remote sent,
   ksget_model_k hmac_sha1_hex token remote sent = true -> ks_auth_ok_k hmac_sha1_hex token remote sent = true.
 Proof. exact ksget_model_auth_ok. Qed.
 Print Assumptions C19_ksget_model_meets_spec.
+
+(* Repeated and empty api_token parameters: every api_token value of the query string counts as a token
+   (load_tokens), so a request that has the parameter at all -- e.g. ?api_token=&api_token=<token> -- never goes
+   to the remote with it *)
+Theorem C19_query_tokens_all_count : forall r v, In v (values "api_token" (l_query r)) -> In v (load_tokens r).
+Proof. exact query_tokens_all_count. Qed.
+Print Assumptions C19_query_tokens_all_count.
+
+Theorem C19_query_token_never_forwarded : forall db r remote w,
+  values "api_token" (l_query r) <> [] -> remote_request db r remote = LFwd w -> values "api_token" (l_query w) = [].
+Proof. exact query_token_never_forwarded. Qed.
+Print Assumptions C19_query_token_never_forwarded.
+
+(* a failing database query is an error, not "token unknown here": nothing is forwarded *)
+Theorem C19_db_error_forwards_nothing : forall db r remote t0 rest,
+  load_tokens r = t0 :: rest ->
+  (salt_token t0 remote = ErrObsolete \/ salt_token t0 remote = ErrFormat) -> db t0 = DbError ->
+  legacy db r remote = LErr /\ remote_request db r remote = LErr.
+Proof. exact db_error_forwards_nothing. Qed.
+Print Assumptions C19_db_error_forwards_nothing.
